@@ -1,7 +1,8 @@
 ------------------------------ MODULE Trace_HwDb ------------------------------
 (* C2S judge for C18.
    kind "model":  [id, hits (sequences whose own regex is found in the model string), seqs (all sequences of the database),
-                   trueFull (full sequences the implementation reports true, via hw.match), cands ([v,dots] matching vendor expressions),
+                   trueFull (full sequences the implementation reports true, via hw.match),
+                   spell ([v, ans]: hw.match of short spellings: "true" | "false" | "refused"), cands ([v,dots] matching vendor expressions),
                    choices (vendor chosen under each tried registration order)]
    kind "load":   [id, ok, unresolved (count of logic names that do not import), badregex, equalTwice]                                   *)
 EXTENDS HwDb, TLC, Json, IOUtils
@@ -12,7 +13,17 @@ VerdictModel(r) ==
   LET hits == ToSet(r.hits)
       want == {s \in ToSet(r.seqs) : IsTrue(hits, s)}
       got == ToSet(r.trueFull)
+      seqs == ToSet(r.seqs)
+      badSpell == {k \in DOMAIN r.spell :
+                     LET den == Denotes(seqs, r.spell[k].v)
+                         v == r.spell[k].v
+                         \* names are resolved one after the other: a spelling can only be asked when each of its beginnings is a spelling too
+                         walkable == \A j \in 1..(Len(v) - 1) : Cardinality(Denotes(seqs, SubSeq(v, 1, j))) = 1
+                         truth == IF IsTrue(hits, CHOOSE q \in den : TRUE) THEN "true" ELSE "false" IN
+                     IF Cardinality(den) = 1 THEN (IF walkable THEN r.spell[k].ans # truth ELSE r.spell[k].ans \notin {truth, "refused"})
+                     ELSE IF Cardinality(den) > 1 THEN r.spell[k].ans # "refused" ELSE FALSE}
   IN IF got # want THEN "true-sequences-differ-from-regex-chain"
+     ELSE IF badSpell # {} THEN (IF \E k \in badSpell : Cardinality(Denotes(seqs, r.spell[k].v)) > 1 THEN "ambiguous-spelling-answered" ELSE "short-spelling-answers-differently")
      ELSE IF \E s \in got : \E p \in Prefixes(s) : p \notin got THEN "not-hierarchical"
      ELSE IF Cardinality(ToSet(r.choices)) > 1 THEN "vendor-depends-on-registration-order"
      ELSE IF ~Unambiguous(r.cands) THEN "vendor-tie-between-equally-specific-matches"
